@@ -357,7 +357,7 @@ def erPrepareNext (w : World) (st : St) (r : ER) : Option Err × St × ER × Boo
         if o.contentLen > o.conf.maxMsg then (some (.rpc 8), st, r, false)
         else finish st { r with current := .hardLimit o.contentLen.toNat 0 } { compressed := compressed, length := o.contentLen.toNat }
       else
-        let (data, e, st, p) := copyAllLimited w true (o.conf.maxMsg + 1) st.src.fuel st 0 []
+        let (data, e, st, p) := copyAllLimited w true o.conf.maxMsg st.src.fuel st 0 []
         match e with
         | some err => (some err, st, { r with err := some err }, p)
         | none => finish st { r with current := .buffer data } { compressed := compressed, length := data.length }
